@@ -49,24 +49,33 @@ NEXT = {
 
 CLAUSES = ["grammar", "nesting", "args", "turn_order", "ball_number", "extra_ball", "game_end_legit",
            "ball_end_cause", "ball_end_progress", "end_request_honoured", "bip_range", "after_end", "game_progress",
-           "bpg_change"]
+           "bpg_change", "ball_start_progress"]
 
 
 class Oracle:
-    def __init__(self, balls_per_game, balls_known, horizon):
+    def __init__(self, balls_per_game, balls_known, horizon, start_horizon=5.0):
         self.B = balls_per_game   # balls per game of the CURRENT game (as configured when that game started)
         self.B_next = balls_per_game   # what the configuration evaluates to now: the next game has to use it
         self.B_prev = None        # balls per game of the previous game on this machine
         self.B_hist = []          # ... of all earlier games on this machine
         self.K = balls_known
         self.H = horizon
+        self.H_start = start_horizon
+        # physical playfield (only when the driver keeps one): balls on it, since when it is empty
+        self.pf_tracked = False
+        self.pf = 0
+        self.pf_empty_since = 0.0
+        self.bws_done_at = None   # when the handlers of the pending ball_will_start were done
+        self.bws_waited = False   # a ball was on the playfield while that ball start was pending
+        self.bws_flagged = False
         self.viol = []
         self.clauses = {c: 0 for c in CLAUSES}
         self.obs = {"games_started": 0, "games_ended": 0, "turns": 0, "balls": 0, "extra_balls_played": 0,
                     "players_added": 0, "late_adds_accepted": 0, "adds_denied": 0, "ambiguous_ball_ops": 0,
                     "end_requests_in_ball": 0, "end_requests_outside_ball": 0, "games_cut_short": 0,
                     "ball_ends_by_zero": 0, "ball_ends_by_request": 0, "max_players_seen": 0,
-                    "games_after_bpg_change": 0}
+                    "games_after_bpg_change": 0, "ball_starts_with_ball_on_playfield": 0,
+                    "max_ball_start_wait_x100": 0}
         self.trace = []
         self.now = 0.0
         self.st = None            # last lifecycle event dispatched (None == no game)
@@ -144,6 +153,8 @@ class Oracle:
             self.V("nesting", "C06:handlers_of_events_interleaved", event=ev)
             return
         self.prev_done = True
+        if ev == "ball_will_start":
+            self.bws_done_at = now
         if ev == "ball_ended":
             self.E_snap = self.E.get(self.cur_p, 0)
         elif ev == "player_turn_ended":
@@ -314,6 +325,9 @@ class Oracle:
             else:
                 self.E[self.cur_p] = have - 1
         self._ball_args("ball_will_start", kw)
+        self.bws_done_at = None
+        self.bws_waited = self.pf_tracked and self.pf > 0
+        self.bws_flagged = False
         self.ball = "starting"
         self.bip = set()
         self.amb = []
@@ -324,6 +338,14 @@ class Oracle:
 
     def _on_ball_starting(self, kw, st):
         self._ball_args("ball_starting", kw)
+        if self.bws_waited and not self.bws_flagged:
+            # the game had to wait for the playfield to become empty and did go on afterwards
+            self.clauses["ball_start_progress"] += 1
+            self.obs["ball_starts_with_ball_on_playfield"] += 1
+            if self.pf_empty_since is not None and self.bws_done_at is not None:
+                w = self.now - max(self.pf_empty_since, self.bws_done_at)
+                self.obs["max_ball_start_wait_x100"] = max(self.obs["max_ball_start_wait_x100"], int(w * 100))
+        self.bws_done_at = None
 
     def _on_ball_started(self, kw, st):
         self._ball_args("ball_started", kw)
@@ -444,6 +466,18 @@ class Oracle:
         self.E[player_number] = self.E.get(player_number, 0) + 1
         self.trace.append("<eb p%s>" % player_number)
 
+    def playfield(self, balls, now):
+        """The driver's physical playfield now holds `balls` balls."""
+        self.now = now
+        self.pf_tracked = True
+        self.pf = balls
+        if balls > 0:
+            self.pf_empty_since = None
+            if self.st == "ball_will_start":
+                self.bws_waited = True
+        elif self.pf_empty_since is None:
+            self.pf_empty_since = now
+
     def ball_op(self, kind, n, now):
         """kind: drain (n balls left play, after saves) | add (n balls added to play)."""
         self.now = now
@@ -464,3 +498,11 @@ class Oracle:
             self.V("ball_end_progress", "C06:ball_not_ended_after_zero_or_request", since=self.must_since,
                    balls_in_play_model=sorted(self.bip))
             self.must_since = None
+        if self.pf_tracked and self.st == "ball_will_start" and self.prev_done and not self.bws_flagged and \
+                self.bws_done_at is not None and self.pf_empty_since is not None and \
+                now - max(self.pf_empty_since, self.bws_done_at) > self.H_start:
+            self.clauses["ball_start_progress"] += 1
+            self.bws_flagged = True
+            self.V("ball_start_progress", "C06:ball_start_stuck_after_playfield_empty",
+                   playfield_empty_since=self.pf_empty_since, ball_will_start_done_at=self.bws_done_at,
+                   waited_for_ball_on_playfield=self.bws_waited)
